@@ -40,12 +40,13 @@ def _plans(tier):
                 ("ids", lc.plan(2, [1], ["F", "M"], "dep", [98]), 2, 1),
                 ("uni", lc.plan(1, [1], UNI, "dep", [98, 99], empty=False), 4, 1),
                 ("stub", lc.plan(1, [], [], "none", [105]), 2, 1)]
-    return [("close", lc.plan(2, [1], FUK, "dep", [98]), 3, 2),
+    return [("close", lc.plan(2, [1], FUK, "none", [98, 99], empty=False), 3, 1),
+            ("close-deep", lc.plan(1, [1], FUK, "dep", [98]), 3, 2),
             ("uni", lc.plan(1, [1], ["F", "U", "V", "S", "H", "L"], "dep", [98]), 4, 1),
-            ("uni-deep", lc.plan(1, [1], UNI, "dep", [98, 99]), 3, 2),
-            ("uni-streamed", lc.plan(1, [1], UNI, "dep", [98], mode="streamed"), 4, 1),
-            ("two", lc.plan(2, [1, 2], ["F", "M"], "none", [98]), 4, 1),
-            ("stub", lc.plan(2, [], [], "none", [105]), 3, 2)]
+            ("uni-streamed", lc.plan(1, [1], UNI, "dep", [98, 99], mode="streamed", empty=False), 4, 1),
+            ("two", lc.plan(2, [1, 2], ["F", "M"], "none", [98, 99], empty=False), 4, 1),
+            ("stub", lc.plan(2, [], [], "none", [105]), 2, 1),
+            ("stub-deep", lc.plan(1, [], [], "none", [105]), 3, 2)]
 
 
 def _model_consts(tier):
@@ -53,7 +54,7 @@ def _model_consts(tier):
     return {"D": 3, "S": 3, "W": 4, "MaxD": 2, "Cd": [1],
             "Kinds": ["F", "X", "M", "U", "S", "H", "L"] if quick else ALL,
             "Pairs": "dep", "BurySizes": [2], "Rev": bool(lc.MON_SWITCHES["backwardInReverse"]),
-            "MaxH": 6 if quick else 7}
+            "MaxH": 6 if quick else 9}
 
 
 def _violation(inv, reqs, where, plan, extra=None):
@@ -90,6 +91,18 @@ def run(pid, tier):
     elif a["distinct"] < 1000 or a["depth"] < 8:
         raise vlib.ToolError("leg A is vacuous: %d states, depth %d" % (a["distinct"], a["depth"]))
     a_states, a_trans = a["distinct"], a["states"]
+    if not quick:
+        # two channels with on-chain activity
+        c2 = dict(consts, Cd=[1, 2], Kinds=["F", "X", "M", "U", "S"], MaxH=7)
+        a2 = lc.leg_a("two", c2, ["C15a", "C15b", "TypeOK", "ModelAgrees"], ["Frame"], workers=8)
+        cov["legs"]["A_model_two_channels"] = {"constants": c2, "states": a2["distinct"], "transitions": a2["states"],
+                                               "depth": a2["depth"], "violated": a2["violated"],
+                                               "wall_s": round(a2["wall_s"], 1)}
+        if a2["violated"] and not model_cex:
+            model_cex = {"violated": a2["violated"],
+                         "requests": [lc.req_str(r) for r in lc.cex_requests(a2["trace"])]}
+        a_states += a2["distinct"]
+        a_trans += a2["states"]
     # vacuity witnesses: each of these "never" properties must be violated by the model
     guards = ["NeverPrunedReady", "NeverKeptAtDm1"] if quick else \
         ["NeverPrunedReady", "NeverKeptAtDm1", "NeverPrunedStub", "NeverRefusedNew", "NeverTooDeep"]
@@ -173,8 +186,8 @@ def run(pid, tier):
                             "expected": dv["expected"]})
     if tr["violated"]:
         steps = [json.loads(x) for x in open(steps_file) if x.strip()]
-        # the step at which the invariant first fails is the last one TLC reached
-        n = tr["distinct"] - 1
+        # the step at which the invariant first fails: TLC's counterexample ends in the state l = step + 1
+        n = lc.cex_state(tr["trace"]).get("l", tr["distinct"]) - 1
         e = steps[max(0, min(n, len(steps)) - 1)]
         reqs = [s["req"] for s in steps if s["seq"] == e["seq"] and s["step"] <= e["step"]]
         for inv in tr["violated"]:
